@@ -242,6 +242,9 @@ func HTTPClient.MembershipVerify
   modifies everything, verifyCalls, lastVerify, lastVerifyHistory, lastVerifyHyper
   ensures C02/accept-implies-exists-and-ordered: result_0 ==> proof.Exists && proof.ActualVersion <= proof.QueryVersion
   ensures result_1 == nil
+  // what is verified is THE DIGEST THE CALLER ASKED ABOUT, against the snapshot it gave (a snapshot
+  // carries an event digest of its own: verifying that one accepts the honest proof of another event)
+  at MembershipProof.DigestVerify assert C02/verifies-the-digest-asked-about: arg1 == eventDigest && arg2 == snapshot
   // ghost bookkeeping (defines the ghosts; not a claim about the code)
   assumes verifyCalls == old(verifyCalls) + 1 && lastVerify == result_0
   assumes lastVerifyHistory == old(snapshot.HistoryDigest) && lastVerifyHyper == old(snapshot.HyperDigest)
